@@ -248,6 +248,35 @@ def run_model(lines):
 
 
 IMPL_BIN = [HARNESS_BIN]
+# run the deterministic cases of the main harness against the RELEASE build as well (debug assertions and overflow
+# checks compiled out): a side effect inside debug_assert!, an overflow that only wraps in release
+RELEASE_TOO = [True]
+_release_built = [False]
+_in_release = [False]
+
+
+def release_pass(prop_id, lines, labels, impl, kwargs):
+    """The same cases through the release build of harness + crate.  Only answers that differ from the debug build's
+    are judged (by the full differential, with the release binary as the implementation)."""
+    if not RELEASE_TOO[0] or _in_release[0] or IMPL_BIN[0] != HARNESS_BIN or kwargs.get("impl_env") is not None or kwargs.get("canon") is not None:
+        return 0, None
+    if not _release_built[0]:
+        ok, out = build_harness("harness", release=True)
+        if not ok:
+            raise RuntimeError("release build of the harness failed: " + out[-2000:])
+        _release_built[0] = True
+    rel = run_lines(HARNESS_BIN_RELEASE, lines)
+    diff = [i for i in range(len(lines)) if rel[i] != impl[i] and rel[i] != "SKIPPED" and impl[i] != "SKIPPED"]
+    v = 0
+    if diff:
+        _in_release[0] = True
+        IMPL_BIN[0] = HARNESS_BIN_RELEASE
+        try:
+            v, _ = differential(prop_id, [(lines[i], labels[i]) for i in diff[:3000]], **kwargs)
+        finally:
+            IMPL_BIN[0] = HARNESS_BIN
+            _in_release[0] = False
+    return v, {"release_profile_cases": len(lines), "release_answers_differing_from_debug": len(diff)}
 
 
 def run_impl(lines, env=None):
@@ -412,7 +441,7 @@ def write_evidence(prop_id, ev):
 # ------------------------------------------------------------------ the generic differential check
 
 def differential(prop_id, cases, monitor=None, finding_class=None, nontrivial=None,
-                 deeper=None, impl_env=None, max_reports=3, shrinkable=True, canon=None, py_monitor=None):
+                 deeper=None, impl_env=None, max_reports=3, shrinkable=True, canon=None, py_monitor=None, retry=None):
     """cases: list of (protocol line, label).  Runs the implementation (Rust harness on /repo)
     and the extracted model on every case, compares line by line and applies the verdict rules
     of DESIGN.md section 2.5.  monitor(line, impl_obs) -> protocol line for the extracted property
@@ -429,6 +458,18 @@ def differential(prop_id, cases, monitor=None, finding_class=None, nontrivial=No
         lines.append(line)
         labels.append(lab)
     impl = run_impl(lines, env=impl_env)
+    if retry is not None:
+        # answers that may be an artefact of a loaded machine (a time limit of the harness, a resource the process could
+        # not get): the case runs once more, alone, with a longer limit; only what it answers then is judged
+        again = [i for i in range(len(lines)) if retry(impl[i])]
+        if again:
+            env2 = dict(impl_env or ENV, VERIF_NET_WATCHDOG="45")
+            if len(again) <= 12:
+                for i in again:
+                    impl[i] = run_lines(IMPL_BIN[0], [lines[i]], shards=1, env=env2)[0]
+            else:       # so many that the process itself was short of something: all of them again, two at a time
+                for i, o in zip(again, run_lines(IMPL_BIN[0], [lines[i] for i in again], shards=2, env=env2)):
+                    impl[i] = o
     # cases a harness process did not run because three earlier cases of its share never answered
     skipped = [i for i, a in enumerate(impl) if a == "SKIPPED"]
     if skipped:
@@ -550,6 +591,9 @@ def differential(prop_id, cases, monitor=None, finding_class=None, nontrivial=No
             path = write_replay(prop_id, payload)
             print("VIOLATION property=%s replay=%s no-failing-input-found" % (prop_id, os.path.relpath(path, VERIF)))
             violations += 1
+    rv, rstats = release_pass(prop_id, lines, labels, impl, dict(monitor=monitor, finding_class=finding_class, nontrivial=nontrivial, deeper=deeper, impl_env=impl_env,
+                                                                  max_reports=max_reports, shrinkable=shrinkable, canon=canon, py_monitor=py_monitor))
+    violations += rv
     nt = 0
     for l, o in zip(lines, impl):
         if nontrivial is None or nontrivial(l, o):
@@ -570,6 +614,8 @@ def differential(prop_id, cases, monitor=None, finding_class=None, nontrivial=No
         stats["extraction_crosscheck_vm_compute"] = xcheck
         if xcheck.get("mismatches"):
             raise RuntimeError("extracted model and vm_compute disagree: %r" % (xcheck,))
+    if rstats:
+        stats.update(rstats)
     if mon:
         stats["monitor_verdicts"] = dict(Counter(m.split(" ")[0] for m in mon.values()))
     return violations, stats
@@ -619,8 +665,12 @@ def replay_generic(payload, monitor=None, impl_env=None):
         build_harness(os.path.basename(rel), release=True)
         IMPL_BIN[0] = os.path.join(TARGET, rel)
     im = run_impl([line], env=impl_env)[0]
-    mo = run_model([line])[0]
-    print("case : %s\nimpl : %s\nmodel: %s" % (line, im, mo))
+    if line.split(" ")[0] in ("SLOWRT",):
+        # self-consistency cases: the expected observation is a constant recorded in the replay file
+        mo = payload.get("model_observation", "stable")
+    else:
+        mo = run_model([line])[0]
+    print("case : %s\nimpl : %s\nmodel: %s" % (line, im[:3000], mo[:3000]))
     if monitor is not None:
         r = run_model([monitor(line, im)])[0]
         print("monitor: %s" % r)
